@@ -1,6 +1,7 @@
 import LyModel.Text.SpecLemmas
 import LyModel.XmlTree.Roundtrip
 import LyModel.Generated.JsonTyping
+import LyModel.JsonTree.Refine
 /-!
 # C12 — printed XML and JSON mean the same to any parser: property theorems (character-data level)
 
@@ -68,5 +69,31 @@ def rfc7951Kind : String → String
 /-- `json_print_value`: the base-type switch read off the C source by the translator IS the RFC 7951 table — 64-bit integers and
     decimal64 as strings, the other numbers and booleans as literals, `empty` as `[null]`, a union as its member type. -/
 theorem json_typing_rfc7951 : ∀ e ∈ Generated.jsonTyping, e.2.2 = rfc7951Kind e.2.1 := by decide
+
+/-- **The JSON tree printer lays a data tree out as RFC 7951 sec. 4/5 prescribe, whatever the tree**: for every forest without
+    metadata (v1) — any depth, any mix of printed and unprinted (`lyd_node_should_print` = false: trimmed defaults, implicit
+    nodes) instances, any run lengths — the output of the model of `json_print_data` (the C printer's bookkeeping of `level`,
+    `level_printed`, the stack of open arrays and the early return for skipped nodes, `JsonTree/Model.lean`, tied to libyang
+    byte for byte on every run) equals the state-free specification `JsonTree.specData`: one member per printed leaf /
+    container, ONE array member per run of leaf-list / list instances holding exactly the printed ones and no member when none
+    is printed, members and items separated by single commas, names qualified at the top level and where the module changes.
+    Hypotheses: a node's schema node differs from its ancestors' (true of every YANG data tree; `matching_node` compares schema
+    pointers) and adjacent instances of one schema node are of one kind.  A stray or missing comma / bracket for ANY tree
+    shape (finding F16 was one, for a trailing skipped instance) contradicts this theorem. -/
+theorem json_tree_refines_spec (forest : List JsonTree.JNode) (hok : JsonTree.OkL [] forest) (hadj : JsonTree.AdjKind forest) :
+    JsonTree.printData forest = JsonTree.specData forest :=
+  JsonTree.printData_eq_spec forest hok hadj
+
+/-- non-vacuity: a list with a skipped trailing instance next to a leaf-list whose instances are all skipped, then a leaf
+    (`{"m:l":[{"k":"a"}],"m:z":1}`) -/
+example :
+    let k (v : Bytes) := JsonTree.JNode.mk .leaf 2 [109] [107] true [] .str v []
+    let forest := [JsonTree.JNode.mk .list 1 [109] [108] true [] .str [] [k [97]],
+                   JsonTree.JNode.mk .list 1 [109] [108] false [] .str [] [k [98]],
+                   JsonTree.JNode.mk .leaflist 3 [109] [113] false [] .lit [55] [],
+                   JsonTree.JNode.mk .leaf 4 [109] [122] true [] .lit [49] []]
+    JsonTree.OkL [] forest ∧ JsonTree.AdjKind forest ∧
+      JsonTree.printData forest = [123,34,109,58,108,34,58,91,123,34,107,34,58,34,97,34,125,93,44,34,109,58,122,34,58,49,125] := by
+  refine ⟨by simp [JsonTree.OkL, JsonTree.Ok, JsonTree.AdjKind], by simp [JsonTree.AdjKind, JsonTree.JNode.sid, JsonTree.JNode.kind], by decide⟩
 
 end LyModel.Props.C12
